@@ -11,7 +11,7 @@
    `pool_src_switches` is read from the Go source on every run (Gen/PoolSrc.v).  The theorems are stated for the
    code that is in the tree: if one of the repaired spots regresses, `exact` below no longer type-checks. *)
 From Coq Require Import List ZArith Bool.
-From MV Require Import Model.Pool Model.PoolMx Gen.PoolSrc Proofs.Pool Proofs.PoolMx Model.PoolInit Proofs.PoolInit Model.PoolDestroy Proofs.PoolDestroy Model.PoolAdmit Proofs.PoolAdmit.
+From MV Require Import Model.Pool Model.PoolMx Gen.PoolSrc Proofs.Pool Proofs.PoolMx Model.PoolInit Proofs.PoolInit Model.PoolDestroy Proofs.PoolDestroy Model.PoolAdmit Proofs.PoolAdmit Model.PoolAdmitN Proofs.PoolAdmitN.
 Import ListNotations.
 Open Scope Z_scope.
 
@@ -237,6 +237,22 @@ Print Assumptions c09_connect_books.
 Theorem c09_max_connections_concurrent : entry_statement (conn_cfg poolinit_src_pp_count_locked).
 Proof. exact conn_count_locked_safe. Qed.
 Print Assumptions c09_max_connections_concurrent.
+
+(* the same for EVERY limit, EVERY number of concurrent callers and EVERY schedule, by an invariant (count = connections +
+   callers between their counted test and their dial) instead of a computed reachable set; `adstepN 1` is `adstep`
+   (adrunN_one), so the three-caller instance the harness exercises is the N = 3, limit = 1 case of this theorem *)
+Theorem c09_max_connections_concurrent_any : forall mx n sched, (0 <= mx)%Z ->
+  (ad_conns (snd (adrunN mx sched (conn_cfgN n))) <= mx)%Z.
+Proof. exact conn_count_locked_safe_N. Qed.
+Print Assumptions c09_max_connections_concurrent_any.
+
+Theorem c09_max_connections_concurrent_any_instance : forall sched,
+  adrunN 1 sched (conn_cfgN 3) = adrun sched (conn_cfg true).
+Proof. exact (fun sched => adrunN_one sched (conn_cfg true)). Qed.
+
+Example c09_max_connections_concurrent_any_example :
+  ad_conns (snd (adrunN 2 [0;0;0;0; 1;1;1;1; 2;2;2; 3;3;3]%nat (conn_cfgN 4))) = 2%Z.
+Proof. exact conn_count_locked_N_reaches_limit. Qed.
 
 Theorem c09_count_after_dial_refuted : ~ entry_statement (conn_cfg false).
 Proof. exact conn_count_after_dial_refuted. Qed.
